@@ -99,7 +99,7 @@ func c05(r *mon.Run) {
 			}
 		}})
 	// one targeted family per lexer / parser error site (the error-construction code itself can fail)
-	sw := []func(string) string{func(s string) string { return s }, func(s string) string { return "é😀 | " + s }, func(s string) string { return "[" + s }, func(s string) string { return "a[?" + s }, func(s string) string { return "\n\t " + s }}
+	sw := []func(string) string{func(s string) string { return s }, func(s string) string { return "é😀 | " + s }, func(s string) string { return "\ufeff" + s }, func(s string) string { return s + "\n" }, func(s string) string { return "\r\n" + s + "\r\n" }, func(s string) string { return "[" + s }, func(s string) string { return "a[?" + s }, func(s string) string { return "\n\t " + s }}
 	ws = append(ws, mon.Workload{Name: "error-sites", N: len(errorSiteSeeds) * len(sw),
 		Describe: func(i int) string { return sw[i%len(sw)](errorSiteSeeds[i/len(sw)]) },
 		Do: func(i int, t *mon.Tally) {
